@@ -804,3 +804,100 @@ func ruleLK7(c *Ctx) {
 		}
 	}
 }
+
+// ------------------------------------------------------------------ LK8 (single lock acquisition per command)
+
+func init() {
+	register(&Rule{ID: "LK8", Min: 3, Run: ruleLK8,
+		Doc: "single-lock-acquisition: on every path of every entry point the fail-fast lock is acquired at most once (an acquisition in a loop counts as unbounded): a second acquisition can fail with `lock busy` after the first section has already committed, or expose an intermediate state to other writers"})
+}
+
+func ruleLK8(c *Ctx) {
+	if c.F.LockPrim == nil {
+		c.unk("<module>", "lock-primitive", "-", "no lock primitive")
+		return
+	}
+	memo := map[*ssa.Function]int{}
+	onStack := map[*ssa.Function]bool{}
+	var sites = map[*ssa.Function][]string{}
+	var summ func(f *ssa.Function) int
+	summ = func(f *ssa.Function) int {
+		if v, ok := memo[f]; ok {
+			return v
+		}
+		if onStack[f] || f == c.F.LockPrim {
+			return 0
+		}
+		onStack[f] = true
+		defer func() { onStack[f] = false }()
+		w := make([]int, len(f.Blocks))
+		loop := false
+		for _, b := range f.Blocks {
+			for _, in := range b.Instrs {
+				call, ok := in.(ssa.CallInstruction)
+				if !ok {
+					continue
+				}
+				n := 0
+				cal := call.Common().StaticCallee()
+				switch {
+				case cal != nil && cal == c.F.LockPrim:
+					n = 1
+					for _, ls := range c.F.LockSites {
+						if ls.Call == call && ls.Callback != nil {
+							n += summ(ls.Callback)
+						}
+					}
+				case cal != nil && c.InModule(cal):
+					n = summ(cal)
+				}
+				if n > 0 {
+					w[b.Index] += n
+					sites[f] = append(sites[f], fmt.Sprintf("%s(%s) at %s", calleeFullName(call.Common()), fmtCount(n), c.Pos(call.Pos())))
+					if inCycle(b) {
+						loop = true
+					}
+				}
+			}
+		}
+		res := 0
+		if loop {
+			res = inf
+		} else {
+			m := map[*ssa.BasicBlock]int{}
+			vis := map[*ssa.BasicBlock]bool{}
+			var lp func(b *ssa.BasicBlock) int
+			lp = func(b *ssa.BasicBlock) int {
+				if v, ok := m[b]; ok {
+					return v
+				}
+				if vis[b] {
+					return 0
+				}
+				vis[b] = true
+				mx := 0
+				for _, sc := range b.Succs {
+					if v := lp(sc); v > mx {
+						mx = v
+					}
+				}
+				m[b] = mx + w[b.Index]
+				return m[b]
+			}
+			res = lp(f.Blocks[0])
+		}
+		if res > inf {
+			res = inf
+		}
+		memo[f] = res
+		return res
+	}
+	for _, e := range c.F.Roots {
+		if e.Pkg != c.Ergo {
+			continue
+		}
+		n := summ(e)
+		c.check(n <= 1, c.Name(e), "lock-acquisitions-per-path", c.FnPos(e), fmt.Sprintf("at most %d lock acquisition on any path", n),
+			fmt.Sprintf("up to %s lock acquisitions on one path (%s): the later one can fail with `lock busy` after the earlier section committed", fmtCount(n), strings.Join(sites[e], "; ")))
+	}
+}
